@@ -16,7 +16,7 @@ Definition jv_res (pid : Z) (r : res) : jv :=
 Definition run_ladder (p : plat) (meth site : string) (e : err) (s : pstate) (pid : Z) : jv :=
   let c := Build_cond e s (pid =? 0) in
   JL [ jv_res pid (method_outcome p meth site c);
-       (if err_ok p e && negb (known_pid0_unlisted p meth site c) then jopt (jv_res pid) (demanded p meth site c) else jnone);
+       (if err_ok p e then jopt (jv_res pid) (demanded p meth site c) else jnone);
        jopt (jv_res pid) (contract p meth site c) ].
 
 Definition jv_fval (v : fval) : jv := match v with FZ z => JZ z | FNone => jnone end.
